@@ -50,8 +50,11 @@ def _sc_bind_by_dependence(prog):
                     v, t = False, f"`{p_}` receives one of {got} - whichever comes at that position in the user's `sc` dictionary: the tolerances are handed over in the order of that dictionary, not by name"
                 elif got == [p_]:
                     v, t = True, f"`{p_}` <- sc[{p_!r}] (dependence analysis of run())"
-                elif ti.unknown:
-                    v, t = None, f"`{p_}` <- {got}; not decided: the analysis did not follow {ti.unknown[0][1]}"
+                elif any(q_ != p_ and any(l_.startswith("sc:") for l_ in labels(x_)) for q_, x_ in env.items() if q_ not in pos[6:9]):
+                    other = next(q_ for q_, x_ in env.items() if q_ != p_ and q_ not in pos[6:9] and any(l_.startswith("sc:") for l_ in labels(x_)))
+                    v, t = None, f"`{p_}` <- {got}; the user's tolerances reach SC_apply through its parameter `{other}` - how they are used there was not followed"
+                elif ti.blind_for(env.get(p_)):
+                    v, t = None, f"`{p_}` <- {got}; not decided: the analysis did not follow {ti.blind_for(env.get(p_))}"
                 else:
                     v, t = False, f"`{p_}` depends on sc entries {got}, expected ['{p_}'] only"
                 if verdict is None or v is False:
